@@ -70,7 +70,12 @@ def expr(e, ind=0):
         return _wrap(f"({expr(e['a'], ind)} {e['op']} {expr(e['b'], ind)})")
     if k == "if":
         return f"(if ({expr(e['c'], ind)}) {block(e['t'], ind)} else {block(e['e'], ind)})"
-    if k in ("let", "lett", "letr", "asg"):
+    if k == "asg":
+        # a block in expression position that *starts* with `x = ...` is read as a record literal {x = ...}
+        # by the parser (is_record_expr): the first assignment is parenthesised
+        pad = "  " * (ind + 1)
+        return "{\n" + f"{pad}({e['x']} = {expr(e['a'], ind + 1)})\n" + _blk(e["b"], ind + 1) + "\n" + "  " * ind + "}"
+    if k in ("let", "lett", "letr"):
         return block(e, ind)
     if k == "tup":
         return _open() + _comma().join(expr(x, ind) for x in e["es"]) + _close()
